@@ -8,7 +8,7 @@ if ! git -C /repo diff --quiet; then echo "/repo has uncommitted changes; refusi
 git -C /repo apply "$patch" || { echo "patch does not apply"; exit 2; }
 rm -rf build/tmp/evidence.bak; cp -r evidence build/tmp/evidence.bak
 # on exit: revert /repo, restore the evidence, drop the traces of this evaluation and REBUILD (otherwise build/*/vsim stays the mutated binary)
-trap 'git -C /repo checkout -- . ; rm -rf /verif/evidence; cp -r /verif/build/tmp/evidence.bak /verif/evidence; find /verif/replays -name "*.trace" -newer /tmp/.mutant_eval_stamp -delete 2>/dev/null; make -C /verif -j16 FLAVOR=plain >/dev/null 2>&1; make -C /verif -j16 FLAVOR=san >/dev/null 2>&1' EXIT
+trap 'git -C /repo checkout -- . ; rm -rf /verif/evidence; cp -r /verif/build/tmp/evidence.bak /verif/evidence; find /verif/replays -name "*.trace" -newer /tmp/.mutant_eval_stamp -delete 2>/dev/null; make -C /verif -j16 FLAVOR=plain >/dev/null 2>&1; make -C /verif -j16 FLAVOR=san >/dev/null 2>&1; make -C /verif -j16 FLAVOR=dbg >/dev/null 2>&1' EXIT
 touch /tmp/.mutant_eval_stamp
 mkdir -p build/tmp
 for p in "$@"; do
